@@ -177,9 +177,16 @@ impl Report {
             );
             exit = 2;
         }
-        if exit == 0 && !self.inconclusive.is_empty() && self.inconclusive.len() as u64 >= self.evaluations {
-            eprintln!("INCONCLUSIVE property={}: every case was inconclusive", self.property);
+        if exit == 0 && !self.inconclusive.is_empty() && self.inconclusive.len() as u64 * 2 > self.evaluations {
+            eprintln!("INCONCLUSIVE property={}: {} of {} cases were inconclusive", self.property, self.inconclusive.len(), self.evaluations);
             exit = 2;
+        }
+        let panics: Vec<String> = crate::par::PANICS.lock().map(|g| g.clone()).unwrap_or_default();
+        if !panics.is_empty() {
+            eprintln!("HARNESS-ERROR property={}: {} case(s) panicked inside the harness, e.g. {}", self.property, panics.len(), panics[0]);
+            if exit == 0 {
+                exit = 2;
+            }
         }
 
         // evidence
@@ -187,6 +194,9 @@ impl Report {
         cov.insert("evaluations".into(), json!(self.evaluations));
         cov.insert("distinct_nontrivial".into(), json!(self.distinct.len()));
         cov.insert("rule".into(), json!(self.rule));
+        if !panics.is_empty() {
+            cov.insert("harness_panics".into(), json!(panics));
+        }
         if self.samples.is_empty() {
             self.samples.push(json!("no sample recorded"));
         }
